@@ -5,6 +5,7 @@ d=/tmp/mut/$1
 mkdir -p /tmp/mut
 git -C /repo worktree add -q --detach "$d" HEAD
 mkdir -p "$d/.shim"
+cp -r "$d/src" "$d/.orig_src"   # pristine copy to compare against (never use git stash: it is shared between worktrees)
 cat > "$d/.shim/importlib_resources.py" <<'EOS'
 from importlib.resources import *  # noqa
 from importlib.resources import files, as_file  # noqa
@@ -12,6 +13,9 @@ EOS
 cat > "$d/RUN.md" <<EOS
 Run anything against THIS tree's sources (pure Python; the srctools installed in site-packages is a different version and must not be used):
   cd $d && PYTHONPATH=$d/.shim:$d/src PYTHONDONTWRITEBYTECODE=1 /venv/bin/python your_demo.py
+Run the same program against the ORIGINAL code (pristine copy, do not edit):
+  cd $d && PYTHONPATH=$d/.shim:$d/.orig_src PYTHONDONTWRITEBYTECODE=1 /venv/bin/python your_demo.py
+Never use git stash/checkout/reset here (the git metadata is shared with other worktrees).
 Run the repository's tests against THIS tree:
   cd $d && PYTHONPATH=$d/.shim:$d/src PYTHONDONTWRITEBYTECODE=1 /venv/bin/python -m pytest -q -p no:cacheprovider -x tests/test_vmf.py   (or any other tests/test_*.py; the whole suite: add -n 12, about 2100 tests pass, the failures are only Cython-only or type_tests cases and are the same before and after your change)
 EOS
